@@ -1,3 +1,5 @@
+//go:build g_keccak
+
 package props
 
 import (
